@@ -963,7 +963,8 @@ MANIFEST_ENTRY = {
             "with two tensor operands (both classes, plain tensors, broadcasting; batch o image; image o batch is plain); (3) torch.cat along any dimension, torch.stack, "
             "split / split_with_sizes / tensor_split (sections and indices) along any dimension; cat of any number of FlowFields and every "
             "split form of FlowFields along the batch dimension (grids and axes); (4) __getitem__ for every form, "
-            "narrow method, __iter__, from_images / collate of any selection, append, copy / deepcopy / pickle; (5) the Image / FlowField "
+            "narrow method (start counted from the front or, negative, from the end), __iter__, from_images / collate of any selection, append, "
+            "the FlowFields(batch) constructor, copy / deepcopy / pickle; (5) the Image / FlowField "
             "dispatchers; (6) closure under programs of any length by induction (syntactic family and general form); (7) _refuted "
             "witnesses for the two design decisions kept by the maintainers (batch reordering / mixing with unchanged shape). Tie: "
             "translator unit BatchTables (function tables, dim resolution, typing conditions, fingerprints of all transcribed methods, "
